@@ -177,9 +177,32 @@ def gen_hist_cases(ctx):
                "unit": "f", "all_pairs": r.random() < 0.4, "from_ref": r.random() < 0.5, "tol": 0.1}
 
 
+def gen_reuse_projected_cases(ctx):
+    """the SAME two trajectory objects evaluated, projected in place onto a plane, and evaluated again with a delta in
+    meters (all orientations are the identity, so the projection is exact: one coordinate becomes 0); the pairs and values
+    of the second call are those of the projected poses, not of what the objects held before"""
+    r = ctx.rng
+    eye = [[1.0, 0.0, 0.0], [0.0, 1.0, 0.0], [0.0, 0.0, 1.0]]
+    for _ in range(14 if not ctx.thorough else 120):
+        n = r.randint(5, 12)
+        nd = r.randrange(3)
+        pr, pe, p = [], [], [0.0, 0.0, 0.0]
+        for _k in range(n):
+            p = [p[i] + (r.choice([-1.5, -1.0, 1.0, 2.0]) if i == nd else r.choice([0.0, 0.25, 0.5, 0.75])) for i in range(3)]
+            pr.append(list(p))
+            pe.append([x + r.choice([0.0, 0.125, -0.25]) for x in p])
+        flat = lambda pts, zero: [mc.mat_pose(eye, [0.0 if (zero and i == nd) else x for i, x in enumerate(q)]) for q in pts]  # noqa: E731
+        calls = [{"ref": flat(pr, False), "est": flat(pe, False), "unit_after": None},
+                 {"ref": flat(pr, True), "est": flat(pe, True), "unit_after": None, "reuse_projected": nd}]
+        yield {"kind": "hist", "rel": r.choice(["trans_part", "point_distance", "full", "trans_part"]), "mode": "mat", "calls": calls,
+               "delta": r.choice([1.0, 1.5, 2.0, 3.0]), "unit": "m", "all_pairs": r.random() < 0.5, "from_ref": r.random() < 0.5,
+               "tol": r.choice([0.1, 0.3])}
+
+
 def gen_cases(ctx):
     yield from gen_pd_cases(ctx)
     yield from gen_hist_cases(ctx)
+    yield from gen_reuse_projected_cases(ctx)
     yield from cli.gen_cli_cases(ctx, "rpe")
 
 
@@ -256,8 +279,17 @@ def run_impl_hist(case):
     from props import C01 as P1
     m = new_rpe(case)
     outs = []
+    prev = None
     for call in case["calls"]:
-        ref, est = mc.make_path(case["mode"], call["ref"]), mc.make_path(case["mode"], call["est"])
+        if call.get("reuse_projected") is not None and prev is not None:
+            from evo.core.trajectory import Plane
+            ref, est = prev                       # the very objects of the previous call, projected in place
+            plane = {2: Plane.XY, 1: Plane.XZ, 0: Plane.YZ}[call["reuse_projected"]]
+            ref.project(plane)
+            est.project(plane)
+        else:
+            ref, est = mc.make_path(case["mode"], call["ref"]), mc.make_path(case["mode"], call["est"])
+        prev = (ref, est)
         out = {"seen_ref": mc.seen_poses(ref), "seen_est": mc.seen_poses(est)}
         out["res"] = run_rpe(case, ref, est, m)
         out["pairs"] = evo_pairs(case, mc.make_path(case["mode"], call["ref"] if case["from_ref"] else call["est"])) \
